@@ -167,8 +167,12 @@ def diffuse(cl, rng, n, replay):
         try:
             h = hvsrpy.process(recs, s)
         except Exception as ex:
-            cl.fail("hvsrpy.processing.diffuse_field_hvsr_processing", f"process raised {type(ex).__name__}: {ex}", signature="diffuse:raise", operator=op)
-            return
+            want, margin = rp.curve_diffuse(raw, n_exp, width, op, b, fcs)
+            if np.all(np.isfinite(want)) and np.all(want > 0) and margin > 1e-7:
+                cl.fail("hvsrpy.processing.diffuse_field_hvsr_processing", f"process raised {type(ex).__name__}: {ex}", signature="diffuse:raise", operator=op)
+                return
+            cl.skipped += 1       # an empty smoothing window yields 0/0: outside the property's domain (finite curves)
+            continue
         n_used = s.fft_settings["n"]
         want, margin = rp.curve_diffuse(raw, n_used, width, op, b, fcs)
         cl.case((op, b, width, N, dt, len(raw)))
